@@ -37,6 +37,8 @@ def _gen_score(rng, shape, width, length):
     def val():
         if width == 1:
             return 0
+        if width == "extreme":
+            return rng.choice([-(2**31), -(2**31) + 1, -1, 0, 1, 2**31 - 2, 2**31 - 1])
         return rng.randrange(-width // 2, width - width // 2)
 
     if shape == "scalar":
@@ -56,7 +58,7 @@ def gen_pq(rng, tier):
     # items are C ints; include negative and large ids sometimes
     base = rng.choice([0, 0, 0, -5, 1000, 2**31 - 50])
     domain = [base + i for i in range(n_items)]
-    width = rng.choice([1, 2, 3, 5, 20, 1000, 2**30])
+    width = rng.choice([1, 2, 3, 5, 20, 1000, 2**30, "extreme"])
     shape = rng.choice(["scalar", "scalar", "tuple", "tuple", "mixed"])
     length = rng.choice([1, 2, 2, 3, 5])
     mix = rng.choice(["push", "pop", "change", "balanced", "fill-drain"])
@@ -144,7 +146,8 @@ def gen_pq(rng, tier):
             item = rng.choice(domain + [domain[-1] + 7])
             ops.append([rng.choice(["score", "len", "empty"]), item])
     return {"kind": "pq", "domain": domain, "ops": ops,
-            "knobs": {"width": width, "shape": shape, "mix": mix, "bias": target_bias}}
+            "knobs": {"width": width, "shape": shape, "mix": mix, "bias": target_bias,
+                      "score_arg": rng.choice(["tuple", "tuple", "tuple", "list", "iter", "gen"])}}
 
 
 def gen_cf(rng, tier):
@@ -207,9 +210,25 @@ def gen_cf(rng, tier):
 # execution with lock-step model
 
 
+def as_score_arg(s, how):
+    """the score as handed to push()/change_score(): int, tuple, list, or a one-shot iterator ('an iterable object yielding ints')"""
+    if not isinstance(s, list):
+        return s
+    if how == "iter":
+        return iter(tuple(s))
+    if how == "gen":
+        return (x for x in tuple(s))
+    if how == "list":
+        return list(s)
+    return tuple(s)
+
+
 def run_pq(case, log, stats):
     from whatshap.priorityqueue import PriorityQueue
 
+    how = case.get("knobs", {}).get("score_arg", "tuple")
+    if how != "tuple":
+        stats.inc("pq_histories_score_arg_" + how)
     pq = PriorityQueue()
     model = {}
     domain = list(case["domain"])
@@ -237,7 +256,7 @@ def run_pq(case, log, stats):
             if item in model:
                 stats.inc("skipped_ops")
                 continue
-            pq.push(tuple(s) if isinstance(s, list) else s, item)
+            pq.push(as_score_arg(s, how), item)
             model[item] = norm_score(s)
             stats.inc("op_push")
         elif name == "pop":
@@ -285,7 +304,7 @@ def run_pq(case, log, stats):
             if old == ranked[0]:
                 stats.inc("change_leaf_candidate")
             stats.inc("change_up" if new > old else "change_down" if new < old else "change_same")
-            pq.change_score(item, tuple(s) if isinstance(s, list) else s)
+            pq.change_score(item, as_score_arg(s, how))
             model[item] = new
             stats.inc("op_change")
         elif name == "score":
